@@ -5,6 +5,7 @@ import (
 	"go/token"
 	"go/types"
 	"sort"
+	"strconv"
 	"strings"
 
 	"golang.org/x/tools/go/ssa"
@@ -17,6 +18,7 @@ func propC05(c *Ctx) propInfo {
 	c.dictRecursionShape()
 	c.parallelSlices()
 	c.dictLookup()
+	c.dictResults()
 	c.intFamily(false, false, true)
 	c.codecPair("E5.codec-pair", "tlb.HashmapE", c.genericMethod("tlb", "HashmapE", "MarshalTLB"), c.genericMethod("tlb", "HashmapE", "UnmarshalTLB"), nil)
 	c.codecPair("E5.codec-pair", "tlb.HashmapAugE", c.genericMethod("tlb", "HashmapAugE", "MarshalTLB"), c.genericMethod("tlb", "HashmapAugE", "UnmarshalTLB"), nil)
@@ -26,7 +28,7 @@ func propC05(c *Ctx) propInfo {
 	c.floor("E5.label-forms", 5)
 	c.floor("E10.dict-recursion", 6)
 	c.floor("E10.parallel-slices", 3)
-	c.floor("E12.dict-lookup", 3)
+	c.floor("E12.dict-lookup", 7)
 	c.floor("E5.codec-pair", 2)
 	return propInfo{
 		explanation: "Static structural clauses of C05 (DESIGN.md §4 C05): the label writer emits hml_short (0, unary, bits) or hml_long (10, bounded length, bits) and both label readers accept exactly hml_short, hml_long and hml_same with the bounded length taken from the remaining-key-length parameter; writer and readers pass remaining-label-1 to both children, visit the 0 child before the 1 child, and extend the key prefix with the bit of the branch taken; keys and values are appended on the same paths and Put inserts both at the same index; Get scans all keys with Equal and only Put orders keys with Compare; key types implement FixedSize/Equal/Compare as the natural order; HashmapE envelopes agree; integer writers are called with widths the primitive supports. Decides these necessary conditions, not equality of the decoded mapping nor insertion-order independence. Also: the label at a node is the prefix common to ALL keys of the node (minimising loop over all keys, or sorted producers).",
@@ -385,6 +387,7 @@ func (c *Ctx) writeWidthPreconditions(rels ...string) {
 				if k > 64 || k < 0 {
 					c.bad(R, fnName(f)+" "+shortQ(q)+" constant width", cl.Pos(), fmt.Sprintf("%s called with the constant width %d", shortQ(q), k))
 				}
+				c.writeRange(f, b, cl, q, k, ord)
 				return
 			}
 			key := fmt.Sprintf("%s %s width %s", fnName(f), shortQ(q), shape(w, 3))
@@ -479,6 +482,58 @@ func (c *Ctx) labelCoversAllKeys() {
 			}
 			if !guard {
 				viaCmp = false
+			}
+			// ... and that comparison MINIMISES: every edge into the updating block is either
+			// "candidate < (or <=) best so far" or a sentinel test that is false for every real
+			// prefix length (best < 0, best == -1); `best <= 0` would let a later, longer prefix
+			// replace a minimum of 0.
+			if guard {
+				var nCall ssa.Value
+				allInstrs(f, func(_ *ssa.BasicBlock, in ssa.Instruction) {
+					c2, ok := in.(*ssa.Call)
+					if !ok || len(c2.Call.Args) < 2 {
+						return
+					}
+					a, b := idxOf(c2.Call.Args[0]), idxOf(c2.Call.Args[1])
+					if ka, okK := constInt(a); okK && ka == 0 && b == v {
+						nCall = c2
+					}
+				})
+				isBest := func(x ssa.Value) bool {
+					ph, ok := x.(*ssa.Phi)
+					return ok && nCall != nil && derivesFrom(ph, func(y ssa.Value) bool { return y == nCall }, false)
+				}
+				minimises := nCall != nil && len(blk.Preds) > 0
+				for _, pb := range blk.Preds {
+					iff := lastIf(pb)
+					if iff == nil || pb.Succs[0] != blk {
+						minimises = false
+						continue
+					}
+					bo, ok := iff.Cond.(*ssa.BinOp)
+					if !ok {
+						minimises = false
+						continue
+					}
+					okEdge := false
+					switch {
+					case bo.X == nCall && isBest(bo.Y) && (bo.Op == token.LSS || bo.Op == token.LEQ):
+						okEdge = true
+					case bo.Y == nCall && isBest(bo.X) && (bo.Op == token.GTR || bo.Op == token.GEQ):
+						okEdge = true
+					case isBest(bo.X):
+						if k, isK := constInt(bo.Y); isK {
+							okEdge = (bo.Op == token.LSS && k <= 0) || (bo.Op == token.LEQ && k < 0) || (bo.Op == token.EQL && k < 0)
+						}
+					}
+					if !okEdge {
+						minimises = false
+						whyA = "the selecting loop updates its choice under " + shape(bo, 3) + ", which is not 'shorter than the best so far' nor a sentinel test that is false for every real length"
+					}
+				}
+				if !minimises {
+					viaCmp = false
+				}
 			}
 			// the loop visits every index: its bound is len(keys)
 			bound := false
@@ -611,4 +666,195 @@ func appendFeeds(b *ssa.BasicBlock, target ssa.Value) bool {
 		}
 	}
 	return found
+}
+
+// dictResults: the polarity of the small decisions around the key scan (added after the mutation
+// battery): Get reports "found" exactly on the edge where Equal said yes and "not found" after the
+// scan; Put panics only when Compare declares the key type foreign (ok == false); the envelope's
+// presence flag is "there is at least one key"; the helper that counts a common prefix counts while
+// the bits are EQUAL.
+func (c *Ctx) dictResults() {
+	const R = "E12.dict-lookup"
+	equalFact := func(f *ssa.Function, b *ssa.BasicBlock) (seen, truth bool) {
+		for _, ft := range factsAt(f, b) {
+			if cl := callOf(ft.Cond); cl != nil && cl.Call.IsInvoke() && cl.Call.Method.Name() == "Equal" {
+				return true, ft.Truth
+			}
+		}
+		return false, false
+	}
+	if f := c.fn("tlb", "Hashmap.Get"); f != nil {
+		okv := true
+		n := 0
+		for _, r := range returnsOf(f) {
+			found, isConst := constBool(retVal(r, 1))
+			if !isConst {
+				okv = false
+				continue
+			}
+			n++
+			seen, truth := equalFact(f, r.Block())
+			if found != (seen && truth) {
+				okv = false
+			}
+		}
+		c.check(okv && n >= 2, R, "Get says found exactly where Equal matched", f.Pos(), "(value, true) on the matching edge, (zero, false) after the scan", "Hashmap.Get returns its found flag with the wrong polarity: a present key is reported missing or a missing one present (with a zero value)")
+	}
+	if f := c.fn("tlb", "Hashmap.Put"); f != nil {
+		okv, n := true, 0
+		allInstrs(f, func(b *ssa.BasicBlock, in ssa.Instruction) {
+			if _, ok := in.(*ssa.Panic); !ok {
+				return
+			}
+			n++
+			good := false
+			for _, ft := range factsAt(f, b) {
+				if ex, ok := ft.Cond.(*ssa.Extract); ok && ex.Index == 1 {
+					if cl := callOf(ex.Tuple); cl != nil && cl.Call.IsInvoke() && cl.Call.Method.Name() == "Compare" && !ft.Truth {
+						good = true
+					}
+				}
+			}
+			if !good {
+				okv = false
+			}
+		})
+		if n > 0 {
+			c.check(okv, R, "Put panics only for a foreign key type", f.Pos(), "panic under Compare's ok == false", "Hashmap.Put panics on a path other than 'Compare reported the key type as foreign': inserting an ordinary new key crashes")
+		}
+	}
+	for _, tn := range []string{"HashmapE", "HashmapAugE"} {
+		f := c.fn("tlb", tn+".MarshalTLB")
+		if f == nil {
+			continue
+		}
+		for _, st := range fieldStores(f, "Exists") {
+			okv := false
+			if bo, ok := st.Val.(*ssa.BinOp); ok {
+				if cl := callOf(bo.X); cl != nil {
+					if bi, ok := cl.Call.Value.(*ssa.Builtin); ok && bi.Name() == "len" {
+						k, _ := constInt(bo.Y)
+						okv = (bo.Op == token.GTR && k == 0) || (bo.Op == token.NEQ && k == 0) || (bo.Op == token.GEQ && k == 1)
+					}
+				}
+			}
+			c.check(okv, R, tn+": the dictionary is present exactly when it has a key", st.Pos(), "Exists = len(keys) > 0", tn+".MarshalTLB sets the presence bit to "+shape(st.Val, 3)+": an empty dictionary must be written as the single bit 0 (hme_empty); announcing a root that does not exist makes the encoder fail on every empty dictionary")
+		}
+	}
+	// the prefix-length helper of the label selection
+	if f := c.fn("tlb", "Hashmap.encodeMap"); f != nil {
+		var helper *ssa.Function
+		allInstrs(f, func(_ *ssa.BasicBlock, in ssa.Instruction) {
+			if cl, ok := in.(*ssa.Call); ok && inLoop(cl.Block()) {
+				if sc := cl.Call.StaticCallee(); sc != nil && inModule(sc) && len(cl.Call.Args) >= 2 && sc.Signature.Results().Len() == 1 && isInteger(sc.Signature.Results().At(0).Type()) {
+					if _, ok := cl.Call.Args[0].(*ssa.IndexAddr); ok {
+						helper = sc
+					}
+				}
+			}
+		})
+		if helper != nil {
+			okv, n := true, 0
+			allInstrs(helper, func(b *ssa.BasicBlock, in ssa.Instruction) {
+				bo, ok := in.(*ssa.BinOp)
+				if !ok || bo.Op != token.ADD {
+					return
+				}
+				if k, ok := constInt(bo.Y); !ok || k != 1 {
+					return
+				}
+				if _, isPhi := bo.X.(*ssa.Phi); !isPhi {
+					return
+				}
+				n++
+				equal := false
+				for _, ft := range factsAt(helper, b) {
+					cmp, ok := ft.Cond.(*ssa.BinOp)
+					if !ok || (cmp.Op != token.EQL && cmp.Op != token.NEQ) {
+						continue
+					}
+					isBit := func(v ssa.Value) bool {
+						ex, ok := v.(*ssa.Extract)
+						if !ok {
+							return false
+						}
+						cl := callOf(ex.Tuple)
+						return cl != nil && strings.HasSuffix(callQName(&cl.Call), ".ReadBit")
+					}
+					if isBit(cmp.X) && isBit(cmp.Y) && (cmp.Op == token.EQL) == ft.Truth {
+						equal = true
+					}
+				}
+				if !equal {
+					okv = false
+				}
+			})
+			c.check(okv && n > 0, R, fnName(helper)+" counts while the bits agree", helper.Pos(), "n++ only where the two bits read are equal", fnName(helper)+" advances its count on a path where the two bits were not found equal: it no longer measures the common prefix, and the label selection picks the wrong key")
+		}
+	}
+}
+
+// writeRange: WriteUint(v, w) keeps the low w bits of v and reports nothing when v does not fit, so
+// a length or count written into a fixed-width field must be known to fit where it is written:
+// v <= 2^w - 1 proved from the value's type, its definition or a dominating guard. Only unsigned
+// writes of a non-constant value into fewer than 63 bits are obligations.
+func (c *Ctx) writeRange(f *ssa.Function, b *ssa.BasicBlock, cl *ssa.Call, q string, w int64, ord map[string]int) {
+	const R = "E1.P7-range"
+	if !strings.HasSuffix(q, ".WriteUint") || w <= 0 || w >= 63 {
+		return
+	}
+	v := cl.Call.Args[1]
+	if k, ok := constInt(v); ok {
+		if k < 0 || k > (int64(1)<<uint(w))-1 {
+			c.bad(R, fmt.Sprintf("%s %s constant %d in %d bits", fnName(f), shortQ(q), k, w), cl.Pos(), fmt.Sprintf("%s writes the constant %d into %d bits: it does not fit and its high bits are dropped silently", fnName(f), k, w))
+		}
+		return
+	}
+	// the generated integer family: a UintN is a Go integer whose TL-B domain is N bits by definition;
+	// its own MarshalTLB writing the receiver is not an obligation (E6 checks the declared width)
+	if len(f.Params) > 0 && f.Signature.Recv() != nil && stripConv(v) == ssa.Value(f.Params[0]) {
+		if _, isBasic := f.Params[0].Type().Underlying().(*types.Basic); isBasic {
+			return
+		}
+	}
+	// a value of a generated UintN type has an N-bit domain by definition
+	if cv, ok := v.(*ssa.Convert); ok {
+		if n, ok := cv.X.Type().(*types.Named); ok && strings.HasPrefix(n.Obj().Name(), "Uint") {
+			if k, err := strconv.Atoi(strings.TrimPrefix(n.Obj().Name(), "Uint")); err == nil && int64(k) <= w {
+				return
+			}
+		}
+		// a signed length converted for the writer: the bound is proved on the signed value
+		// (lengths and counts are not negative; stated in the evidence)
+		if isInteger(cv.X.Type()) && !isUnsigned(cv.X.Type()) && isUnsigned(cv.Type()) {
+			v = cv.X
+		}
+	}
+	key := fmt.Sprintf("%s %s value %s in %d bits", fnName(f), shortQ(q), shape(v, 3), w)
+	ord[key]++
+	if ord[key] > 1 {
+		key = fmt.Sprintf("%s#%d", key, ord[key])
+	}
+	g := siteGoal{desc: "value fits the width", build: func(p *proverCtx) []*linexp {
+		return []*linexp{p.lin(v).scale(-1).addConst((int64(1) << uint(w)) - 1)}
+	}}
+	p := c.newProver(f, b)
+	if proveAll(p, g) || c.phiSplit(f, b, g) {
+		c.ok(R, key, cl.Pos(), fmt.Sprintf("value proved <= 2^%d-1", w))
+	} else if why, ok := excLookupS(excRange, key); ok {
+		c.exc(R, key, cl.Pos(), why)
+	} else {
+		c.bad(R, key, cl.Pos(), fmt.Sprintf("%s writes %s into %d bits without it being known to fit (no type bound, no dominating guard): a larger value is truncated silently and the cell decodes to something else", fnName(f), shape(v, 3), w))
+	}
+}
+
+var excRange = map[string]string{
+	"(tlb.FixedLengthText).MarshalTLB boc.Cell.WriteUint value len(t) in 8 bits":   "the text itself is written into the same cell right after the length: more than 126 bytes exceed the 1023-bit capacity and WriteBytes fails, so a length of 256 or more never yields a cell",
+	"(tlb.VmCellSlice).MarshalTLB boc.Cell.WriteUint value *&s.stBits in 10 bits":  "slice bounds of a cell: 0..1023 by construction (set by the decoder from 10-bit fields or by the constructor from a cell's size)",
+	"(tlb.VmCellSlice).MarshalTLB boc.Cell.WriteUint value *&s.endBits in 10 bits": "slice bounds of a cell: 0..1023 by construction",
+	"(tlb.VmStack).MarshalTLB boc.Cell.WriteUint value len(s) in 24 bits":          "depth of an in-memory VM stack; 2^24 entries is beyond what the TVM (and this encoder's recursion) handles",
+	"tlb.encode boc.Cell.WriteUint value reflect.Value.Uint() in 8 bits":           "the width is chosen by the reflect kind of the field (Uint8): the value has that many bits by its Go type (kind-to-width table: E14)",
+	"tlb.encode boc.Cell.WriteUint value reflect.Value.Uint() in 16 bits":          "reflect kind Uint16",
+	"tlb.encode boc.Cell.WriteUint value reflect.Value.Uint() in 32 bits":          "reflect kind Uint32",
+	"wallet.genContextID boc.Cell.WriteUint value workchain in 8 bits":             "a workchain id is written as its 8-bit two's complement on purpose (-1 -> 0xFF); the highload/v5 contracts read it back as int8",
 }
